@@ -220,16 +220,28 @@ class Server:
         raise KeyError(spec)
 
     def used_adhoc(self, spec, req_json):
-        return [a for a in spec.get("adhoc_classes", ())
-                if ("adhoc.%s" % a["name"]) in req_json]
+        """ad-hoc class specs a request refers to (by name), plus the ad-hoc
+        bases they derive from, in definition order"""
+        allc = list(spec.get("adhoc_classes", ()))
+        need = {a["name"] for a in allc if ("adhoc.%s" % a["name"]) in req_json}
+        grew = True
+        while grew:
+            grew = False
+            for a in allc:
+                b = a.get("base", "")
+                if a["name"] in need and b.startswith("adhoc.") and b[6:] not in need:
+                    need.add(b[6:])
+                    grew = True
+        return [{k: v for k, v in a.items() if k != "dynamic"} for a in allc
+                if a["name"] in need]
 
     def model_ops(self, spec, ops, regc):
         """reference-model execution of one op list: every call alone in a
         pristine fork, values passed forward canonically."""
         for op in ops:
             if "pseudo" in op:
-                if op["pseudo"] == "evict":
-                    for r in op["regs"]:
+                if op["pseudo"] in ("evict", "dropclass"):
+                    for r in op.get("regs", ()):
                         regc.pop(r, None)
                 continue
             op.pop("skip", None)
